@@ -628,7 +628,14 @@ class ndarray:
         return ALL([_truth(c, self.dtype) for c in self._cells()])
     def sum(self, axis=None):
         return sum(self)
-    def max(self, axis=None): return amax(self)
+    def max(self, axis=None, initial=None):
+        if initial is not None:
+            if not len(self._idx): return box(unbox(initial, self.dtype), self.dtype)
+            r = amax(self)
+            i = box(unbox(initial, self.dtype), self.dtype)
+            if self.dtype.kind == "i": return SymI64(z3.If(r.e > i.e, r.e, i.e))
+            raise ModelGap("max(initial=) on non-int array")
+        return amax(self)
     def min(self, axis=None): return amin(self)
     def mean(self, axis=None): return mean(self)
     def std(self, axis=None, ddof=0): return std(self, ddof=ddof)
